@@ -17,6 +17,11 @@ git apply $OUT/patch.diff || { echo "cannot re-apply patch"; exit 2; }
 echo "== suite with change"; (cd $WT && PYTHONPATH=$WT/src timeout 1800 /venv/bin/python -m pytest -q -p no:cacheprovider -n 8 tests 2>&1 | tail -1 | tee $OUT/suite.txt)
 # only apply if /repo is clean
 [ -z "$(git -C /repo status --porcelain)" ] || { echo "/repo dirty"; exit 2; }
+# /repo is restored on every way out of this script (an interrupted run once
+# left a seeded change behind in /repo, where a snapshot then committed it)
+restore_repo() { git -C /repo checkout -- . ; git -C /repo status --porcelain; }
+trap restore_repo EXIT
+trap 'exit 130' INT TERM HUP
 git -C /repo apply $OUT/patch.diff || { echo "patch does not apply to /repo"; exit 2; }
 cd /verif
 : > $OUT/checks.txt
@@ -26,4 +31,3 @@ for c in "$@"; do
   grep -A1 '^VIOLATION' $OUT/check_$c.txt | head -4 | cut -c1-400
   grep '^HARNESS' $OUT/check_$c.txt | head -3 | cut -c1-300
 done
-git -C /repo checkout -- . ; git -C /repo status --porcelain
